@@ -51,7 +51,7 @@ def clip(region, a):
     return (nx0, ny0, nx1, ny1)
 
 
-def draw_case(rng, pre, bpp, alt, w, h, nsub, tk=None):
+def draw_case(rng, pre, bpp, alt, w, h, nsub, tk=None, direct=False):
     seed = rng.randrange(2 ** 30)
     region = (0, 0, w, h)
     subs = []
@@ -62,7 +62,14 @@ def draw_case(rng, pre, bpp, alt, w, h, nsub, tk=None):
     sw, sh = region[2] - region[0], region[3] - region[1]
     mode = 1 if rng.random() < 0.25 else 0
     k = rng.random()
-    if k < 0.1:
+    if direct:
+        # ImageDrawable::draw_sub_image(target, area) called directly on the final drawable: no offset, the
+        # area is drawn at the origin (or rejected when it is not fully inside)
+        a = sub_area(rng, sw, sh)
+        subs += list(a)
+        mode, ox, oy = 2, 0, 0
+        sw, sh = a[2], a[3]
+    elif k < 0.1:
         ox, oy = rng.choice([-1, 1]) * rng.randrange(2 ** 20 - 40, 2 ** 20), rng.choice([-1, 1]) * rng.randrange(2 ** 20 - 40, 2 ** 20)
     elif k < 0.3:
         ox, oy = 0, 0
@@ -111,6 +118,8 @@ def gen(tier, rng, pre):
                     yield draw_case(rng, pre, bpp, alt, w, h, 1)
                     yield draw_case(rng, pre, bpp, alt, w, h, 2)
                     yield draw_case(rng, pre, bpp, alt, w, h, rng.choice([2, 3, 3]), tk=2)
+                    yield draw_case(rng, pre, bpp, alt, w, h, 0, direct=True)
+                    yield draw_case(rng, pre, bpp, alt, w, h, rng.choice([0, 1, 2]), tk=2, direct=True)
     # a wrong length reaches img_draw / img_pixels as `err n` on both sides
     if pre == '':
         for _ in range(50):
